@@ -20,14 +20,31 @@ type HookFault struct {
 	Hook  string `json:"hook"`
 	Model string `json:"model"`
 	Occ   int    `json:"occ"`
+	Class string `json:"class,omitempty"` // the well-known error the hook's error wraps (simdrv.ClassError)
+}
+
+// ApplyClass makes every error-returning fault of the list wrap the error
+// class (ErrBadConn bursts and cancellations keep their own values).
+func ApplyClass(fs []Fault, class string) {
+	for i := range fs {
+		switch {
+		case fs[i].Hook != nil:
+			fs[i].Hook.Class = class
+		case fs[i].Drv != nil && fs[i].Drv.Type != "bad_conn":
+			fs[i].Drv.Class = class
+		}
+	}
 }
 
 func HookMarker(id int) string { return fmt.Sprintf("hookfault#%d(", id) }
 
 type HookErr struct {
-	ID   int
-	What string
+	ID    int
+	What  string
+	Class string
 }
+
+func (e *HookErr) Unwrap() error { return simdrv.ClassError(e.Class) }
 
 func (e *HookErr) Error() string { return fmt.Sprintf("hookfault#%d(%s)", e.ID, e.What) }
 
@@ -206,7 +223,7 @@ func RunMulti(o env.Options, fs []*Fault, action HookAction, do func(e *env.Env)
 		var herr error
 		if f != nil && f.Hook != nil && f.Hook.Model == hc.Model && f.Hook.Hook == hc.Hook && f.Hook.Occ == n {
 			sr.HookFired = true
-			herr = &HookErr{ID: f.Hook.ID, What: k}
+			herr = &HookErr{ID: f.Hook.ID, What: k, Class: f.Hook.Class}
 		}
 		if herr == nil && action != nil {
 			herr = action(hc, &ev)
